@@ -11,7 +11,7 @@ namespace Conn
 /-- Labels that are steps of the connection's own goroutines (critical sections), as opposed to what users,
 handlers, the peer and the transport do. -/
 def Label.internal : Label → Bool
-  | .ecall | .enotify | .ectx _ | .eclose | .ewait | .read _ | .wret _ _ | .hasync _ | .hret _ _ => false
+  | .ecall | .ecallbad | .enotify | .ectx _ | .eclose | .ewait | .read _ | .wret _ _ | .hasync _ | .hret _ _ => false
   | _ => true
 
 def Enabled (s : St) : Prop := ∃ l, l.internal = true ∧ (step0 s l).isSome = true
